@@ -107,9 +107,14 @@ def check(ctx):
         case = {"kind": kind, "H": H, "features": names, "thr": rat_str(thr), "model": msj, "option": mk["option"], "primary": mk["primary"],
                 "T": T, "N": N, "spot": enc_rat(mk["spot"]), "vol": enc_rat(mk["vol"]), "strike": rat_str(mk["strike"]),
                 "dt": rat_str(mk["dt"]), "call": mk["call"], "cost": rat_str(mk["cost"])}
-        with torch.no_grad():
+        # autograd switched on in a third of the cases (fit / compute_loss evaluate the hedge that way): the hedge must not depend on it
+        grad_on = g.chance(0.35)
+        case["grad_enabled"] = grad_on
+        with torch.set_grad_enabled(grad_on):
             inject(torch, u, mk)
             st, out, mut = call_impl(hedger.compute_hedge, d, hedge, watch=[("derivative", d)])
+        if st == "ok":
+            out = out.detach()
         if mut:
             ctx.mutated("compute_hedge", mut, case)
         ctx.stats[f"H={H}"] += 1
@@ -132,10 +137,12 @@ def check(ctx):
         t = g.randint(0, T - 2)
         m2 = perturb(g, mk, t)
         changed_stat = any(max(a) != max(b) or min(a) != min(b) for a, b in zip(mk["spot"], m2["spot"]))
-        with torch.no_grad():
+        with torch.set_grad_enabled(grad_on):
             inject(torch, u, m2)
             st2, out2, _ = call_impl(hedger.compute_hedge, d, hedge)
             inject(torch, u, mk)
+        if st2 == "ok":
+            out2 = out2.detach()
         ctx.case(case | {"t": t}, nontrivial=changed_stat, tag="perturbation")
         ctx.traces += 1
         if st2 != "ok":
@@ -153,6 +160,55 @@ def check(ctx):
         for p in range(N):
             reqs.append({"op": "hedge", "market": market_json(mk, p), "features": fj, "model": msj, "n": T, "h": H})
             metas.append((case | {"path": p}, tol, [[base[p][hh][tt] for hh in range(H)] for tt in range(T)]))
+    # ---------------- feature OBJECTS shared by two hedgers: a ModuleOutput whose inputs contain prev_hedge (e.g. a WhalleyWilmott
+    # module used as a feature) handed to two hedgers evaluated alternately on the same derivative; the second hedger must read ITS OWN
+    # previous hedge, so its positions for steps 0..t must not move when only later prices change, and must equal those of a hedger with
+    # its own feature objects
+    from pfhedge.features import ModuleOutput
+    for it in range(40 if ctx.tier == "quick" else 400):
+        mk = gen_market(g, primary="BrownianStock")
+        mk["option"] = "EuropeanOption"
+        T, N = mk["T"], mk["N"]
+        mk["vol"] = [[v if v > 0 else F(1, 4) for v in r] for r in mk["vol"]]
+        mk["var"] = [[v * v for v in r] for r in mk["vol"]]
+        d, u = build_derivative(torch, mk)
+        thr = g.choice([x for p in mk["spot"] for x in p])
+
+        def mk_feature():
+            inner = model_obj(torch, sub_ms)
+            return ModuleOutput(inner, [feature_obj(torch, "moneyness", mk, thr), "prev_hedge"])
+        sub_ms = gen_linear(g, 2, 1)
+        top1, top2 = gen_linear(g, 2, 1), gen_linear(g, 2, 1)
+        shared = mk_feature()
+        hA = Hedger(model_obj(torch, top1), [shared, feature_obj(torch, "time_to_maturity", mk, thr)])
+        hB = Hedger(model_obj(torch, top2), [shared, feature_obj(torch, "time_to_maturity", mk, thr)])
+        hB_own = Hedger(model_obj(torch, top2), [mk_feature(), feature_obj(torch, "time_to_maturity", mk, thr)])
+        case = {"shared_module_output": True, "T": T, "N": N, "spot": enc_rat(mk["spot"]), "strike": rat_str(mk["strike"]), "sub": model_json(sub_ms),
+                "top": [model_json(top1), model_json(top2)]}
+        t = g.randint(0, T - 2)
+        m2 = perturb(g, mk, t)
+        ctx.case(case | {"t": t}, True, tag="shared_feature_objects")
+        ctx.traces += 1
+        with torch.no_grad():
+            inject(torch, u, mk)
+            sA, oA, _ = call_impl(hA.compute_hedge, d)
+            sB, oB, _ = call_impl(hB.compute_hedge, d)
+            sO, oO, _ = call_impl(hB_own.compute_hedge, d)
+            inject(torch, u, m2)
+            sA2, oA2, _ = call_impl(hA.compute_hedge, d)
+            sB2, oB2, _ = call_impl(hB.compute_hedge, d)
+            inject(torch, u, mk)
+        if not (sA == sB == sO == sA2 == sB2 == "ok"):
+            ctx.fail("compute_hedge raised for hedgers sharing a feature object", case, key="compute_hedge:shared-feature:error",
+                     detail=[str(x)[:80] for x in (oA, oB, oO, oA2, oB2) if not hasattr(x, "shape")])
+            continue
+        if not torch.equal(oB, oO):
+            ctx.fail("a hedger sharing a ModuleOutput(prev_hedge) feature object with another hedger differs from the same hedger with its own "
+                     "feature objects (it reads the other hedger's previous hedge)", case, key="compute_hedge:shared-feature:own-state",
+                     detail={"shared": oB.tolist(), "own": oO.tolist()})
+        elif not torch.equal(oB[..., : t + 1], oB2[..., : t + 1]):
+            ctx.fail("hedge ratios for steps 0..t change when only prices/variances after step t are changed (look-ahead through a shared feature)",
+                     case | {"t": t}, key="compute_hedge:lookahead", detail={"before": oB[..., : t + 1].tolist(), "after": oB2[..., : t + 1].tolist()})
     try:
         outs = ctx.driver(reqs)
     except DriverBroken as e:
